@@ -619,29 +619,16 @@ _APB = "patch = header + T (platform concrete) + one command + EOF_; ids, offset
 H("C03", "patch", "c03_apply_delete_data", bounds=_APB + "D at block 2, 2 blocks, in a 640-byte dat3 of category 0a / ex1 / chunk 02 / win32", **_AP)
 H("C03", "patch", "c03_apply_expand_data", bounds=_APB + "E at block 1, 3 blocks, ps4, data file does not exist yet", **_AP)
 H("C03", "patch", "c03_apply_delete_data_across_end", bounds=_APB + "D at block 2, 4 blocks, ps3, file of 384 bytes (range starts inside, ends behind the end)", **_AP)
-H("C03", "patch", "c03_apply_add_data", bounds=_APB + "A: 128 payload bytes at block 1 + 1 block wiped, 640-byte file", **_AP)
-H("C03", "patch", "c03_apply_add_data_at_end_no_delete", bounds=_APB + "A: 128 payload bytes at block 5 (the end of the file), nothing wiped", **_AP)
-_APF = dict(_AP); _APF["unwind"] = 170
-for n in ("overwrite_at_3", "replace_at_0", "new_at_16"):
-    H("C03", "patch", "c03_apply_add_file_" + n, bounds=_APB + "F/A with one raw block of 5 bytes (" + n + "), a neighbouring file must stay untouched", **_APF)
-H("C03", "patch", "c03_apply_delete_file", bounds=_APB + "F/D: exactly the named file disappears", **_AP)
-H("C03", "patch", "c03_apply_make_dir_tree", bounds=_APB + "F/M: parent directory created, files untouched", **_AP)
-H("C03", "patch", "c03_apply_second_target_info_wins", bounds="T(win32), T(ps4), E: the file of the second platform is created, none for the first", **_AP)
-_APH = dict(_AP); _APH["unwind"] = 1040; _APH["timeout"] = 3600
-for n, d in (("dat_version", "dat1, version header -> first KiB"), ("index_data", "index file (file number 0), data header -> second KiB"), ("index2_index", "index2 file, index header -> second KiB")):
-    H("C03", "patch", "c03_apply_header_update_" + n, bounds=_APB + "H: " + d + " of a 2048-byte file, 1024 header bytes symbolic", **_APH)
-# C15: the file names patching writes (closures inside ZiPatch::apply) agree with Repository::{dat,index,index2}_filename at these instances
+# NOT registered (harness code kept in harness/patch.rs; measured 2026-09-29): the commands whose payload owns heap data --
+# A (Vec block_data), H (Vec header_data), F (String path) -- still lose their constants (a String built into a hand-written
+# SqpkOperation::FileOperation literal comes back with a symbolic length: 69 of 70 unwindings in the unreachable arm), so
+# c03_apply_add_data*, c03_apply_add_file_*, c03_apply_delete_file, c03_apply_make_dir_tree, c03_apply_header_update_* and
+# c04_create_* end without a verdict (10-12 GB); two T commands in one patch (c03_apply_second_target_info_wins): out of memory.
+# C15: the file names patching writes (closures inside ZiPatch::apply) agree with Repository::dat_filename at these instances
 H("C15", "patch", "c03_apply_expand_data", bounds=_APB + "E creates /g/sqpack/ex1/0a0102.ps4.dat3: category, expansion, chunk, platform tag and data-file number as the read side names them", **_AP)
-H("C15", "patch", "c03_apply_header_update_index2_index", bounds=_APB + "H on /g/sqpack/ex2/0a0200.win32.index2", **_APH)
+H("C15", "patch", "c03_apply_delete_data", bounds=_APB + "D rewrites /g/sqpack/ex1/0a0102.win32.dat3 (and no other file)", **_AP)
 for n in ("without_eof_is_an_error", "cut_mid_command_is_an_error"):
     H("C17", "patch", "c17_apply_patch_" + n, bounds="patch T + D " + n.replace("_", " ") + " (concrete bytes): ZiPatch::apply returns Err", **_AP)
-
-_CR = dict(_AP); _CR["unwind"] = 70
-_CR["encodes"] = ["patch::ZiPatch::create", "patch::recurse", "patch::PatchChunk (BinWrite / BinRead)", "sqpack::write_data_block_patch", "sqpack::read_data_block_patch"]
-H("C04", "patch", "c04_create_new_tree_empty", bounds="old tree with one file (3 symbolic bytes), new tree an empty directory: exactly one delete-file command", **_CR)
-for n, d in (("file_only_in_new", "added: one add-file command with the new content, no delete"), ("file_only_in_old", "removed: one delete-file command"),
-             ("file_in_both", "present in both trees with different contents: rewritten with the new content and NOT deleted")):
-    H("C04", "patch", "c04_create_" + n, bounds="trees /a and /b with one file each (names, sizes 3 / 4 concrete; contents symbolic), file x " + d + "; neither tree is modified", **_CR)
 
 # C07: MDL::write_to_buffer on a directly constructed minimal version-5 model (thorough: 15-17 min each, symbolic execution dominated)
 _WB = ["model::MDL::write_to_buffer", "model::ModelFileHeader (BinWrite)", "model::ModelData (BinWrite)", "model_vertex_declarations::vertex_element_writer",
